@@ -103,7 +103,7 @@ def edge_shape(rng, vb, force=None):
     across a corner, with its bounding box but not its geometry reaching into the viewBox, or covering the viewBox"""
     x0, y0, w, h = vb
     x1, y1 = x0 + w, y0 + h
-    k = force or rng.choice(["inside", "outside", "side", "side", "side-small", "side-small", "corner", "bbox-only", "cover", "curve-side", "ring-side"])
+    k = force or rng.choice(["inside", "outside", "side", "side", "side-small", "side-small", "side-hair", "corner", "bbox-only", "cover", "curve-side", "ring-side"])
     sz = rng.choice([0.1, 0.2, 0.4]) * min(w, h)
     f = lambda v: repr(round(v, 3))  # noqa: E731
 
@@ -145,9 +145,11 @@ def edge_shape(rng, vb, force=None):
         if side == "t":
             return k, rect(x0 + 1, y0 - off - sz, x0 + 1 + sz, y0 - off)
         return k, rect(x0 + 1, y1 + off, x0 + 1 + sz, y1 + off + sz)
-    if k in ("side", "side-small", "curve-side"):
+    if k in ("side", "side-small", "side-hair", "curve-side"):
         side = rng.choice("lrtb")
         out = rng.choice([0.5, 1.0, 2.0, 4.0]) if k == "side-small" else rng.uniform(0.3, 1.5) * sz
+        if k == "side-hair":
+            out = rng.choice([0.0004, 0.0008, 0.002]) * min(w, h)     # less than 0.1% of the viewBox
         inn = rng.uniform(0.5, 1.5) * sz
         t = rng.uniform(0.1, 0.6)
         if side == "l":
@@ -236,6 +238,16 @@ def judge_doc(ctx, text, npts=40):
     import re as _re
     if _re.search(r"<path(?![^>]*\sd=)[^>]*>", out) or _re.search(r'<path[^>]*\sd=""', out):
         return "a shape with no geometry left is kept as an empty path: %s" % out[:300], True
+    # nothing of what is left sticks out of the viewBox (up to single-precision noise)
+    vb_ = SVG.fromstring(out).view_box()
+    if vb_ is not None:
+        lim = 2e-5 * max(abs(vb_.x) + vb_.w, abs(vb_.y) + vb_.h, 1.0)
+        for sh_ in SVG.fromstring(out).shapes():
+            bb_ = sh_.bounding_box()
+            if bb_.w == 0 and bb_.h == 0:
+                continue
+            if bb_.x < vb_.x - lim or bb_.y < vb_.y - lim or bb_.x + bb_.w > vb_.x + vb_.w + lim or bb_.y + bb_.h > vb_.y + vb_.h + lim:
+                return "after the clip a shape's bounding box %s sticks out of the viewBox %s" % (tuple(bb_), tuple(vb_)), True
     A = render.Doc(text, ctx.driver)
     B = render.Doc(out, ctx.driver)
     A.eps = B.eps = 0.15
@@ -408,9 +420,13 @@ def search(ctx, disagreements):
     # the command line's --clip_to_viewbox: the same clip as the library's, for a root with a viewBox and for one with
     # width / height only
     import subprocess, tempfile, os
-    for root_at in ('viewBox="0 0 20 20"', 'width="20" height="20"'):
+    for root_at in ('viewBox="0 0 20 20"', 'width="20" height="20"', 'viewBox="0 0 20 20" data-moved="1"'):
         doc = ('<svg xmlns="http://www.w3.org/2000/svg" %s><path d="M5,5 L30,5 L30,12 L5,12 Z" fill="red"/><path d="M25,25 L40,25 L40,40 Z"/>'
                '<path d="M2,14 L9,14 L9,18 L2,18 Z" fill="blue"/></svg>' % root_at)
+        if "data-moved" in root_at:
+            # geometry that only a transform / a stroke brings into the viewBox
+            doc = ('<svg xmlns="http://www.w3.org/2000/svg" viewBox="0 0 20 20"><g transform="translate(-30 0)"><path d="M35,5 L60,5 L60,12 L35,12 Z" fill="red"/></g>'
+                   '<path d="M25,25 L40,25 L40,40 Z"/><path d="M-3,16 L-3,2" stroke="blue" stroke-width="10" fill="none"/></svg>')
         with tempfile.TemporaryDirectory() as td:
             pth = os.path.join(td, "in.svg")
             open(pth, "w").write(doc)
@@ -423,7 +439,7 @@ def search(ctx, disagreements):
         why, _ = judge_doc(ctx, SVG.fromstring(doc).topicosvg().tostring(), npts=60)
         lib = SVG.fromstring(doc).topicosvg().clip_to_viewbox().tostring()
         A, B = render.Doc(lib, ctx.driver), render.Doc(r.stdout, ctx.driver)
-        for (x, y) in [(8, 8), (18, 8), (19.5, 6), (22, 8), (28, 8), (5, 16), (30, 30)]:
+        for (x, y) in [(8, 8), (18, 8), (19.5, 6), (22, 8), (28, 8), (5, 16), (30, 30), (1, 8), (1.5, 14)]:
             la, lb = A.point(x, y), B.point(x, y)
             if la is render.UNKNOWN or lb is render.UNKNOWN:
                 continue
